@@ -63,20 +63,45 @@ def _hhea_contract(tag):
         },
         canaries={"advance-max-is-first": f"implies(len({O}) > 0, {T_}.{advMax} == {adv(f'{O}[0]')})"},
         locals={"advances": List(INT), "firstSideBearings": List(INT), "secondSideBearings": List(INT), "extents": List(INT), "numLongMetrics": INT},
-        # ghost witnesses: src[k] = glyph index that produced list position k; pos[a] = position of glyph index a
-        ghost_vars={"src": (List(INT), "[]"), "pos": (Dict(INT, INT), "{}")},
-        ghost={"extents.append(extent)": ["pos = {**pos, i: len(src)}", "src = src + [i]"]},
+        # Ghost state, one triple per extremum X in {F: min first bearing, S: min second bearing, E: max extent}: gX = the running
+        # extremum over the boxed glyphs seen so far, aX = index (in the glyph order) of a glyph attaining it, kX = position in the
+        # list where that value sits.  Every invariant then relates ONE quantified variable to ground ghost terms (no nested
+        # sequence indexing), which every solver of the portfolio instantiates in the first round.
+        ghost_vars={f"{v}{x}": (INT, "0") for x in "FSE" for v in "gak"},
+        ghost={"extents.append(extent)": [
+            stmt
+            for x, val, better in (("F", "firstSideBearing", "<"), ("S", "secondSideBearing", "<"), ("E", "extent", ">"))
+            for stmt in (
+                f"a{x} = i if (len(extents) == 1 or {val} {better} g{x}) else a{x}",
+                f"k{x} = len(extents) - 1 if (len(extents) == 1 or {val} {better} g{x}) else k{x}",
+                f"g{x} = {val} if (len(extents) == 1 or {val} {better} g{x}) else g{x}",
+            )
+        ]},
         loops={
             "for glyphName in self.glyphOrder": Loop(
                 index="i",
                 invariants={
                     "adv": f"len(advances) == i and all(advances[a] == {adv(f'{O}[a]')} for a in range(i))",
-                    "lens": "len(src) == len(firstSideBearings) and len(src) == len(secondSideBearings) and len(src) == len(extents)",
-                    "src": f"all(0 <= src[k] and src[k] < i and {B}[{O}[src[k]]] is not None"
-                    f" and firstSideBearings[k] == {fsb(f'{O}[src[k]]')}"
-                    f" and secondSideBearings[k] == {adv(f'{O}[src[k]]')} - {fsb(f'{O}[src[k]]')} - {span(f'{O}[src[k]]')}"
-                    f" and extents[k] == {fsb(f'{O}[src[k]]')} + {span(f'{O}[src[k]]')} for k in range(len(src)))",
-                    "cover": f"all(implies({B}[{O}[a]] is not None, a in pos and 0 <= pos[a] and pos[a] < len(src) and src[pos[a]] == a) for a in range(i))",
+                    "lens": "len(extents) == len(firstSideBearings) and len(extents) == len(secondSideBearings)",
+                    # a list is non-empty as soon as one boxed glyph was seen
+                    "some": f"all(implies({B}[{O}[a]] is not None, len(extents) > 0) for a in range(i))",
+                    **{
+                        f"{x}-{nm}": inv
+                        for x, lst, val, le in (
+                            ("F", "firstSideBearings", fsb(f"{O}[$]"), "<="),
+                            ("S", "secondSideBearings", f"{adv(f'{O}[$]')} - {fsb(f'{O}[$]')} - {span(f'{O}[$]')}", "<="),
+                            ("E", "extents", f"{fsb(f'{O}[$]')} + {span(f'{O}[$]')}", ">="),
+                        )
+                        for nm, inv in (
+                            # the running extremum bounds every boxed glyph seen so far ...
+                            ("bound", f"all(implies({B}[{O}[a]] is not None, g{x} {le} {val.replace('$', 'a')}) for a in range(i))"),
+                            # ... is attained by the boxed glyph number aX ...
+                            ("glyph", f"implies(len(extents) > 0, 0 <= a{x} and a{x} < i and {B}[{O}[a{x}]] is not None and g{x} == {val.replace('$', f'a{x}')})"),
+                            # ... bounds every list entry and sits in the list at position kX
+                            ("list", f"all(g{x} {le} {lst}[k] for k in range(len({lst})))"),
+                            ("at", f"implies(len(extents) > 0, 0 <= k{x} and k{x} < len({lst}) and {lst}[k{x}] == g{x})"),
+                        )
+                    },
                 },
             ),
             "while advances[numLongMetrics - 2] == lastAdvance": Loop(
@@ -233,13 +258,15 @@ contract(
             index="i", seq="K",
             invariants={
                 "done": f"all(({_VT}.VOriginRecords[K[a]] if K[a] in {_VT}.VOriginRecords else {_VT}.defaultVertOriginY) == vertical_origin(self.allGlyphs.glyphs[K[a]]) for a in range(i))",
-                "only": f"all(any(K[a] == g for a in range(i)) and {_VT}.VOriginRecords[g] != {_VT}.defaultVertOriginY for g in {_VT}.VOriginRecords)",
+                # ghost wr: record key -> position of the glyph that produced it (names the witness: no exists under forall)
+                "only": f"all(g in wr and 0 <= wr[g] and wr[g] < i and K[wr[g]] == g and {_VT}.VOriginRecords[g] != {_VT}.defaultVertOriginY for g in {_VT}.VOriginRecords)",
                 "default-kept": f"{_VT}.defaultVertOriginY == old_default",
             },
         )
     },
-    ghost_vars={"old_default": (INT, "0")},
-    ghost={"vorg.defaultVertOriginY = vorg_count.most_common(1)[0][0]": ["old_default = vorg.defaultVertOriginY"]},
+    ghost_vars={"old_default": (INT, "0"), "wr": (Dict(STR, INT), "{}")},
+    ghost={"vorg.defaultVertOriginY = vorg_count.most_common(1)[0][0]": ["old_default = vorg.defaultVertOriginY"],
+           "vorg.VOriginRecords[glyphName] = vertOriginY": ["wr = {**wr, glyphName: i}"]},
 )
 
 
@@ -296,11 +323,12 @@ contract(
     params={"self": Ref("OutlineCompiler")},
     returns=lib.BBOX,
     ensures={
-        "encloses-every-glyph-box": f"all(implies({_B}[g] is not None, {_encloses('result', 'g')}) for g in {_B})",
+        **{f"encloses-{sd}": f"all(implies({_B}[g] is not None, result[{k}] {'<=' if k < 2 else '>='} {_B}[g].{sd}) for g in {_B})" for k, sd in enumerate(_SIDES)},
         **{f"tight-{s}": f"implies({_HASBOX}, any({_B}[g] is not None and {_B}[g].{s} == result[{k}] for g in {_B}))" for k, s in enumerate(_SIDES)},
         "empty": f"implies(not {_HASBOX}, result == (0, 0, 0, 0))",
     },
     canaries={"is-first-box": f"implies(len({_B}) > 0 and {_B}[list({_B})[0]] is not None, result == {_B}[list({_B})[0]])"},
+    merge_branches=False,  # first box / union with the box so far: two simple paths per iteration
     ghost_vars={f"w{k}": (INT, "0") for k in range(4)},
     ghost={
         "fontBox = glyphBox": [f"w{k} = i" for k in range(4)],
@@ -312,7 +340,7 @@ contract(
             locals={"fontBox": Opt(lib.BBOX)},
             invariants={
                 "none-yet": f"iff(fontBox is None, all({_B}[K[a]] is None for a in range(i)))",
-                "encloses": f"implies(fontBox is not None, all(implies({_B}[K[a]] is not None, {_encloses('fontBox', 'K[a]')}) for a in range(i)))",
+                **{f"encloses-{sd}": f"implies(fontBox is not None, all(implies({_B}[K[a]] is not None, fontBox[{k}] {'<=' if k < 2 else '>='} {_B}[K[a]].{sd}) for a in range(i)))" for k, sd in enumerate(_SIDES)},
                 **{f"attained-{s}": f"implies(fontBox is not None, 0 <= w{k} and w{k} < i and {_B}[K[w{k}]] is not None and {_B}[K[w{k}]].{s} == fontBox[{k}])" for k, s in enumerate(_SIDES)},
             },
         )
@@ -720,3 +748,92 @@ def _os2_cases(rng, n):
 
 CONTRACTS["ufo2ft.outlineCompiler:BaseOutlineCompiler.setupTable_OS2#c04"].runtime = Runtime(
     _os2_cases, lambda d: {"self": rtlib.outline_compiler(d, d["flavor"], upto=("head", "hmtx", "hhea", "maxp", "cmap"))}, call=lambda fn, a: fn(a["self"]))
+
+
+# =====================================================================================================
+# post (TrueType flavour): format 2 with the compiler's glyph order; the extra names are the non-standard names of
+# the glyph order.  `super().setupTable_post()` goes through the `#c04` summary of the base method, which is itself
+# discharged against the base method below (what the override relies on: table made iff requested, format 3 before).
+from fontTools.ttLib.standardGlyphOrder import standardGlyphOrder as _STD  # noqa: E402
+
+_POSTC = CLASSES[lib.table_class("post")]
+for _f, _t in {"formatType": REAL, "extraNames": List(STR), "mapping": Dict(STR, INT), "glyphOrder": List(STR), "italicAngle": REAL, "underlinePosition": INT,
+               "underlineThickness": INT, "isFixedPitch": INT, "minMemType42": INT, "maxMemType42": INT, "minMemType1": INT, "maxMemType1": INT}.items():
+    _POSTC.fields.setdefault(_f, _t)
+lib.LIB_TYPES.setdefault("public.openTypePostUnderlinePosition", REAL)
+lib.INFO_ATTR_TYPES.setdefault("postscriptIsFixedPitch", BOOL)
+
+lib._tt_field(None, None, "post")  # declares TTFont's per-tag field for 'post' (otherwise declared lazily on first subscript)
+_PT = "self.otf['post']"
+_BASE_POST_FIELDS = ["formatType", "italicAngle", "underlinePosition", "underlineThickness", "isFixedPitch", "minMemType42", "maxMemType42", "minMemType1", "maxMemType1"]
+_BASE_POST = contract(
+    "ufo2ft.outlineCompiler:BaseOutlineCompiler.setupTable_post",
+    name="c04",
+    props=["C04"],
+    params={"self": Ref("OutlineCompilerT")},
+    modifies=["TTFont.tbl:post"] + [f"table_post.{f}" for f in _BASE_POST_FIELDS],
+    ensures={
+        "made-iff-requested": "implies('post' in self.tables, self.otf.get('post') is not None) and implies('post' not in self.tables, self.otf.get('post') == old(self.otf.get('post')))",
+        "fresh-table": "implies('post' in self.tables, fresh(self.otf['post']))",
+        "format-3": f"implies('post' in self.tables, {_PT}.formatType == 3.0)",
+    },
+    canaries={"always-made": "self.otf.get('post') is not None"},
+)
+CLASSES["OutlineCompilerT"].fields.setdefault("ufo", Ref("Font"))
+
+
+def _super_post_call(ex, st, self, args, kwargs, node):
+    return ex.call_contract(_BASE_POST, [st.env["self"]], {}, st, node)
+
+
+cls("C04_SuperPost", methods={"setupTable_post": _super_post_call}, notes="super() inside OutlineTTFCompiler.setupTable_post: the base method, through its #c04 contract")
+
+
+@trusted("c04.super_post", "super() in OutlineTTFCompiler.setupTable_post resolves to BaseOutlineCompiler (single inheritance): its setupTable_post is called through the contract setupTable_post#c04")
+def _super_post(ex, st, args, kwargs, node):
+    return ex.new_object(st, "C04_SuperPost")
+
+
+contract(
+    "ufo2ft.outlineCompiler:OutlineTTFCompiler.setupTable_post",
+    props=["C04"],
+    params={"self": Ref("OutlineCompilerT")},
+    globals={"super": Val.obj(FuncRef(None, "c04.super_post")), "standardGlyphOrder": list(_STD)},
+    ensures={
+        "made-iff-requested": "implies('post' in self.tables, self.otf.get('post') is not None) and implies('post' not in self.tables, self.otf.get('post') == old(self.otf.get('post')))",
+        "format-2": f"implies('post' in self.tables, {_PT}.formatType == 2.0)",
+        "glyph-order": f"implies('post' in self.tables, {_PT}.glyphOrder == self.glyphOrder)",
+        "mapping-empty": f"implies('post' in self.tables, len({_PT}.mapping) == 0)",
+        # the name list: exactly the names of the glyph order that are not standard Macintosh glyph names (as sets; the order
+        # of the list is only checked at run time, see bounded_ensures)
+        "extra-names-only": f"implies('post' in self.tables, all(any(self.glyphOrder[k] == g for k in range(len(self.glyphOrder))) and g not in standardGlyphOrder for g in {_PT}.extraNames))",
+        "extra-names-all": f"implies('post' in self.tables, all(implies(g not in standardGlyphOrder, g in {_PT}.extraNames) for g in self.glyphOrder))",
+    },
+    bounded_ensures={
+        # BOUNDED (run time only): the engine's model of a filtered list comprehension states membership, not order (notes/C04.requests.md #2)
+        "extra-names-in-order": f"implies('post' in self.tables, {_PT}.extraNames == [g for g in self.glyphOrder if g not in standardGlyphOrder])",
+    },
+    canaries={"no-extra-names": f"implies('post' in self.tables, len({_PT}.extraNames) == 0)"},
+)
+
+
+def _post_cases(rng, n):
+    pool = [".notdef", "space", "A", "a", "uni0041", "foo", "bar.alt", "Agrave", "glyph1"]
+    out = []
+    for k in range(n):
+        names = rng.sample(pool, rng.randint(0, 6))
+        order = names[:]
+        rng.shuffle(order)
+        out.append({"glyphs": {nm: {"width": 500} for nm in names}, "order": order, "no_post": k % 7 == 3})
+    return out
+
+
+def _post_build(d):
+    comp = rtlib.outline_compiler(d, "ttf")
+    if d.get("no_post"):
+        comp.tables = frozenset(comp.tables) - {"post"}
+    return {"self": comp}
+
+
+for _k in ("ufo2ft.outlineCompiler:OutlineTTFCompiler.setupTable_post", "ufo2ft.outlineCompiler:BaseOutlineCompiler.setupTable_post#c04"):
+    CONTRACTS[_k].runtime = Runtime(_post_cases, _post_build, call=lambda fn, a: fn(a["self"]))
